@@ -28,6 +28,7 @@
       Sync stops this input's syncer (role error: hand-over) or all syncers (break error)
 -/
 import GunYu.Model.Replica
+import GunYu.Model.Handover
 namespace GunYu.Drive.C16
 open GunYu GunYu.Replica
 
@@ -119,6 +120,123 @@ def showCls : Cls → String
   | .fault => "fault" | .takeover => "takeover" | .clear => "clear" | .emptyid => "emptyid"
   | .discont => "discont" | .fuel => "fuel"
 
+/-! ### hand-over (Model/Handover.lean)
+
+    hand <n> <ttl ms> <cache_0,…,cache_{n-1}> <event,event,…>
+      all instances start as candidates at time 0 with a free lease, disk caches as given (`-` = none)
+      events (in the order the real calls were observed, `t` = milliseconds passed since the last one):
+        t<d> | c<i>+ / c<i>-  Campaign call of instance i from runCluster's loop, answered / failed
+             | k<i>+ / k<i>-  Campaign call of instance i from its clusterTicker (when its follower
+                              syncer is no longer running: a call that was in flight, `landed`)
+             | r<i>+ / r<i>-  Renew      | g<i>+ / g<i>-  Resign     | o<i>.<j>  i answers HANDOVER to j
+             | e<i>+ / e<i>-  i's syncer ends on its own (with / without ErrBreak)
+             | x<i>  crash    | u<i>  restart   | f<j>=<v>  a follower session moved j's cache
+      The loop's Campaign (the Resign) of an instance whose syncer is being stopped implies that the
+      stop has completed (the calls follow `sy.Stop(); WgWait()` in one goroutine).
+    → one line per call: `c<i> won|lost|failed|early`, `k<i> won|lost|failed|none`, `r<i> ok|stop`,
+      `g<i> ok|failed|none`, `o<i>.<j> yes|no`
+      then `end lease=<holder|-> phases=<p0,p1,…> caches=<…> senders=<k>` -/
+
+open GunYu.Handover in
+def phaseStr : Phase → String
+  | .cand _ => "cand" | .lead => "lead" | .stopL _ => "stopL" | .resign _ => "resign"
+  | .foll => "foll" | .follOffered _ => "foll" | .stopF _ => "stopF" | .dead => "dead"
+
+open GunYu.Handover in
+def handStep (c : Cfg) (s : State) (tok : String) : State × List String :=
+  let chars := tok.toList
+  let kind := String.ofList (chars.take 1)
+  let restRaw := String.ofList (chars.drop 1)
+  let okFlag := chars.getLast? == some '+'
+  let rest := String.ofList ((chars.drop 1).filter (fun ch => ch != '+' && ch != '-'))
+  let num := fun (t : String) => t.toNat?.getD 0
+  match kind with
+  | "t" => (step c true s (.tick (num rest)), [])
+  | "c" =>
+    let i := num rest
+    -- the loop's campaign comes after the stop of the previous syncer (a follower that was offered
+    -- leadership: not before its `Run` has returned — otherwise the campaign is `early`)
+    let s := match (s.loc i).phase with
+      | .stopF _ => step c true s (.stopped i)
+      | .follOffered _ => step c true s (.stopped i)
+      | _ => s
+    match (s.loc i).phase with
+    | .cand w =>
+      if s.now < w then (s, [s!"c{i} early"])
+      else
+        let s' := step c true s (.campaign i okFlag)
+        let r := if !okFlag then "failed" else if (s'.loc i).phase == .lead then "won" else "lost"
+        (s', [s!"c{i} {r}"])
+    | .follOffered _ => (s, [s!"c{i} early"])
+    | _ => (s, [s!"c{i} unexpected"])
+  | "k" =>
+    let i := num rest
+    if isFollowing (s.loc i).phase then
+      let s' := step c true s (.tcampaign i okFlag)
+      let r := if !okFlag then "failed" else match (s'.loc i).phase with | .stopF .changed => "won" | _ => "lost"
+      (s', [s!"k{i} {r}"])
+    else if sending (s.loc i) then (s, [s!"k{i} none"])
+    else if !okFlag then (s, [s!"k{i} failed"])
+    else
+      -- the ticker's call was still in flight when the syncer's wait was closed: it reaches the
+      -- store, nobody acts on its answer
+      let s' := step c true s (.landed i)
+      (s', [s!"k{i} {if ownsLease s' i && !heldByOther s i then "won" else "lost"}"])
+  | "r" =>
+    let i := num rest
+    let s' := step c true s (.renew i okFlag)
+    let r := match (s'.loc i).phase with
+      | .lead => "ok"
+      | .stopL _ => if okFlag && holdsUntil s i s.now then "ok" else "stop"
+      | _ => "stop"
+    (s', [s!"r{i} {r}"])
+  | "g" =>
+    let i := num rest
+    let s := match (s.loc i).phase with
+      | .stopL _ => step c true s (.stopped i)
+      | _ => s
+    match (s.loc i).phase with
+    | .resign _ =>
+      let s' := step c true s (.resigned i okFlag)
+      (s', [s!"g{i} {if okFlag then "ok" else "failed"}"])
+    | _ => (s, [s!"g{i} none"])
+  | "o" =>
+    match rest.splitOn "." with
+    | [a, b] =>
+      let i := a.toNat?.getD 0
+      let j := b.toNat?.getD 0
+      let s' := step c true s (.offer i j)
+      let r := match (s'.loc i).phase with | .stopL .handover => "yes" | _ => "no"
+      (s', [s!"o{i}.{j} {r}"])
+    | _ => (s, ["bad-event"])
+  | "e" => (step c true s (.fail (num rest) okFlag), [])
+  | "x" => (step c true s (.crash (num rest)), [])
+  | "u" => (step c true s (.restart (num rest)), [])
+  | "f" =>
+    -- f<j>=<v>: a follower session moved j's cache
+    match restRaw.splitOn "=" with
+    | [a, v] => (step c true s (.fsync (a.toNat?.getD 0) (if v == "-" then none else v.toNat?)), [])
+    | _ => (s, ["bad-event"])
+  | _ => (s, ["bad-event"])
+
+open GunYu.Handover in
+def handRun (n ttl caches evs : String) : List String :=
+  let n := n.toNat?.getD 0
+  let c : Cfg := { n := n, ttl := ttl.toNat?.getD 0 }
+  let cs := (caches.splitOn ",").map (fun t => if t == "-" then none else t.toNat?)
+  let s0 : State := { now := 0, lease := none, loc := fun i => ⟨.cand 0, (cs[i]?).join, true⟩ }
+  let (s, out) := (evs.splitOn ",").foldl (fun (acc : State × List String) tok =>
+    let (s', o) := handStep c acc.1 tok
+    (s', acc.2 ++ o)) (s0, [])
+  let idx := List.range n
+  let phases := String.intercalate "," (idx.map (fun i => phaseStr (s.loc i).phase))
+  let caches := String.intercalate "," (idx.map (fun i => match (s.loc i).cache with | none => "-" | some v => toString v))
+  let lease := match s.lease with
+    | some (h, e) => if s.now < e then toString h else "-"
+    | none => "-"
+  let senders := (idx.filter (fun i => sending (s.loc i))).length
+  out ++ [s!"end lease={lease} phases={phases} caches={caches} senders={senders}"]
+
 def handle : List String → Option (List String)
   | ["sess", bk, l, vw, f, ch, cut, lost, fuel] =>
     let r : Option (List String) := do
@@ -147,6 +265,7 @@ def handle : List String → Option (List String)
         | .nothing => "nothing" | .stopSyncer => "syncer" | .stopAll => "all"
       pure [s!"first={first} react={react}"]
     some (r.getD ["bad-op"])
+  | ["hand", n, ttl, caches, evs] => some (handRun n ttl caches evs)
   | _ => none
 
 end GunYu.Drive.C16
